@@ -3,14 +3,26 @@ package main
 import (
 	"fmt"
 
+	"github.com/golang/geo/s1"
 	"github.com/golang/geo/s2"
-	"github.com/golang/geo/s2/s2intersect"
 )
 
 func main() {
-	P := s2.CellIDFromFace(0)
-	k := P.Children()
-	for _, in := range s2intersect.Find([]s2.CellUnion{{P}, {P}, {k[0], k[1]}, {k[2], k[3]}}) {
-		fmt.Println(in.Indices, in.Intersection, len(in.Intersection))
+	idx := s2.NewShapeIndex()
+	for k := 0; k < 40; k++ {
+		idx.Add(s2.RegularLoop(s2.PointFromLatLng(s2.LatLngFromDegrees(float64(k*4-80), float64(k*9))), s1.Angle(0.02), 8))
 	}
+	idx2 := s2.NewShapeIndex()
+	for k := 0; k < 12; k++ {
+		idx2.Add(s2.RegularLoop(s2.PointFromLatLng(s2.LatLngFromDegrees(float64(k*7-40), float64(k*9+4))), s1.Angle(0.01), 6))
+	}
+	fresh := func() s1.ChordAngle {
+		t := s2.NewMinDistanceToShapeIndexTarget(idx2)
+		q := s2.NewClosestEdgeQuery(idx, s2.NewClosestEdgeQueryOptions())
+		return q.Distance(t)
+	}
+	t := s2.NewMinDistanceToShapeIndexTarget(idx2)
+	q := s2.NewClosestEdgeQuery(idx, s2.NewClosestEdgeQueryOptions())
+	fmt.Println("IsDistanceLess:", q.IsDistanceLess(t, s1.ChordAngleFromAngle(1.0)))
+	fmt.Println("reused Distance:", q.Distance(t).Angle().Degrees(), "fresh:", fresh().Angle().Degrees())
 }
